@@ -88,7 +88,9 @@ def run(ctx):
         mb = f.mir.get(p)
         if not mb:
             continue
-        str_params = [i for i in range(1, mb["arg_count"] + 1) if mb["locals"][i]["ty"] == "&str" and mb["locals"][i]["name"] == "input"]
+        str_params = [i for i in range(1, mb["arg_count"] + 1) if mb["locals"][i]["ty"] == "&str"]
+        if any(mb["locals"][i]["ty"] == "&[char]" for i in range(1, mb["arg_count"] + 1)):
+            continue        # already works on an environment: its &str parameter is a message / keyword, not the input text
         if not str_params or it["name"] == "idealize_env":
             continue
         g = mir.cfg(mb)
